@@ -124,6 +124,9 @@ class MandyKb(ApiImmut):
             c.skip('mandy_kb_gram_condition_in_undecidable_band')
             return
         eps = np.finfo(float).eps
+        if not sl[0] > 0:
+            c.skip('mandy_kb_gram_matrix_zero')
+            return
         if not np.all(np.isfinite(ratios)) or np.any((ratios >= 0.5 * eps) & (ratios <= 1e-10)):
             c.skip('mandy_kb_gram_condition_in_undecidable_band')
             return
